@@ -655,6 +655,15 @@ inductive Comb where
   | yajilinClue
   deriving Inhabited
 
+/-- The parameter checks the Python constructors make themselves (`ValueError` otherwise): `Dict` wants tables of
+equal length, `IntSpaces` `(max_int + 1) * (max_num_spaces + 1) <= 36`, `MultiDigit` `base ** digits <= 36`
+(one node; sub-terms are constructed before their parent). -/
+def ctorOk : Comb → Bool
+  | .dict b a => b.length == a.length
+  | .intSpaces _ mi ms => decide ((mi + 1) * (ms + 1) ≤ 36)
+  | .multiDigit b k => decide (b ^ k ≤ 36)
+  | _ => true
+
 def gridDims (env : Env) (dims : Option (Nat × Nat)) : Nat × Nat :=
   match dims with
   | some d => d
